@@ -161,6 +161,26 @@ def fingerprint(t, o):
 
 
 # ------------------------------------------------------------------ operations
+def scribble(v, depth=0):
+    """Write into every mutable container of a returned plain data structure (to_dict): what a query hands out must not
+    be the object's own state, so the frame condition on the receiver must survive this."""
+    if depth > 4:
+        return
+    if isinstance(v, dict):
+        for x in list(v.values()):
+            scribble(x, depth + 1)
+        if v:
+            v.pop(next(iter(v)))
+        v["#scribble"] = "#"
+    elif isinstance(v, set):
+        v.clear()
+        v.add("#scribble")
+    elif isinstance(v, list):
+        for x in v:
+            scribble(x, depth + 1)
+        v.append("#scribble")
+
+
 def q_fa(o, op):
     if op == "accepts":
         return words_acc(o.accepts)
@@ -169,8 +189,11 @@ def q_fa(o, op):
     if op == "len":
         return len(o)
     if op == "to_dict":
-        return canon({repr(k): {repr(a): (sorted(repr(x) for x in v) if isinstance(v, (set, list)) else repr(v))
-                                for a, v in d.items()} for k, d in o.to_dict().items()})
+        raw = o.to_dict()
+        res = canon({repr(k): {repr(a): (sorted(repr(x) for x in v) if isinstance(v, (set, list)) else repr(v))
+                               for a, v in d.items()} for k, d in raw.items()})
+        scribble(raw)
+        return res
     return canon(getattr(o, op)())
 
 
@@ -226,7 +249,10 @@ def query_raw(t, o, op):
         return q_cfg(o, op)
     if t == "pda":
         if op == "to_dict":
-            return sorted(repr(k) + "->" + repr(sorted(repr(x) for x in v)) for k, v in o.to_dict().items())
+            raw = o.to_dict()
+            res = sorted(repr(k) + "->" + repr(sorted(repr(x) for x in v)) for k, v in raw.items())
+            scribble(raw)
+            return res
         return canon(getattr(o, op)())
     if t == "fst":
         if op == "translate":
